@@ -151,6 +151,21 @@ def evaluate(inp):
             return bad('annotation-spurious', expected, observed, nontrivial=nontrivial)
     if g_ez:
         return bad('spurious-ez', expected, observed, nontrivial=nontrivial)
+    # history: the caller uses up what was returned (descriptors consumed, look-ups that insert keys, an annotation
+    # rescaled) and reads the same text again; the second answer must be the first one
+    snapshot = (res[0], {k: list(v) for k, v in res[1].items() if v}, dict(res[2]), {k: dict(v) for k, v in res[3].items() if v})
+    for v in res[1].values():
+        del v[:]
+    res[1][997].append('$x1')
+    for v in res[3].values():
+        v['weight'] = 123.0
+    res[3][998]['k'] = 'v'
+    again = strip_bonding_descriptors(inp['text'])
+    again = (again[0], {k: list(v) for k, v in again[1].items() if v}, dict(again[2]), {k: dict(v) for k, v in again[3].items() if v})
+    if again != snapshot:
+        return bad('history:second-read-of-the-same-text-differs', expected,
+                   {'clean': again[0], 'descriptors': {str(k): v for k, v in again[1].items()},
+                    'annotations': {str(k): v for k, v in again[3].items()}}, nontrivial=nontrivial)
     if any(t[0] == 'm' for t in tokens):
         # conformance of the numbering model with the real graph reader: the node that owns a
         # descriptor must carry the name of the node the descriptor was written after
